@@ -88,18 +88,33 @@ let () =
            | None -> "stack-underflow")
         | "inject" :: ts ->
           toks := ts;
-          let st = ref { h_nodes = []; h_cur = None; h_saved = (fun _ -> O) } in
-          (try
-             while !toks <> [] do
-               (match next () with
-                | "p" -> st := h_emit !st (zi (next ()))
-                | "d" -> let h = nat_of_int (int_of_string (next ())) in
-                  st := { !st with h_saved = set_saved !st.h_saved h (nat_of_int (List.length !st.h_nodes)) }
-                | "c" -> toks := "c" :: !toks; st := h_run hYGIENIZE_ADJUSTS_CALLER !st (p_act ())
-                | t -> failwith ("item " ^ t))
-             done
-           with Failure m when m = "eof" -> ());
-          String.concat "," (List.map (fun z -> string_of_int (int_of_z z)) !st.h_nodes)
+          if hYGIENIZE_USES_CURSORS then begin
+            let st = ref { hc_nodes = []; hc_cur = None; hc_fn = None; hc_saved = (fun _ -> O) } in
+            (try
+               while !toks <> [] do
+                 (match next () with
+                  | "p" -> st := hc_emit !st (zi (next ()))
+                  | "d" -> let h = nat_of_int (int_of_string (next ())) in
+                    st := { !st with hc_saved = set_saved !st.hc_saved h (nat_of_int (List.length !st.hc_nodes)) }
+                  | "c" -> toks := "c" :: !toks; st := hc_run !st (p_act ())
+                  | t -> failwith ("item " ^ t))
+               done
+             with Failure m when m = "eof" -> ());
+            String.concat "," (List.map (fun z -> string_of_int (int_of_z z)) !st.hc_nodes)
+          end else begin
+            let st = ref { h_nodes = []; h_cur = None; h_saved = (fun _ -> O) } in
+            (try
+               while !toks <> [] do
+                 (match next () with
+                  | "p" -> st := h_emit !st (zi (next ()))
+                  | "d" -> let h = nat_of_int (int_of_string (next ())) in
+                    st := { !st with h_saved = set_saved !st.h_saved h (nat_of_int (List.length !st.h_nodes)) }
+                  | "c" -> toks := "c" :: !toks; st := h_run hYGIENIZE_ADJUSTS_CALLER !st (p_act ())
+                  | t -> failwith ("item " ^ t))
+               done
+             with Failure m when m = "eof" -> ());
+            String.concat "," (List.map (fun z -> string_of_int (int_of_z z)) !st.h_nodes)
+          end
         | "expand" :: ts ->
           toks := ts;
           let b = p_list p_stmt in
